@@ -400,6 +400,22 @@ mixed safe_body () { return call_other (this_object (), safe_fn); }
 '''
 
 
+# loops that never end under the budgets the generator uses (<= 8000): one per backward-branch opcode of
+# eval_instruction (which opcode a form compiles to is measured on every run: `#ops` lines, extra_checks)
+SPIN_FORMS = [
+    "while (1) ;", "for (;;) ;", "do { } while (1);", "int i = 0; while (i >= 0) { i = i & 1023; i++; }",
+    "int i; for (i = 0; i < 5; ) ;",                                  # F_LOOP_COND_NUMBER
+    "int i, n = 5; for (i = 0; i < n; ) ;",                           # F_LOOP_COND_LOCAL
+    "int i = 5; while (i--) i = 5;",                                  # F_WHILE_DEC
+    "mixed *a = ({ }); while (sizeof (a) < 5) ;",                      # F_BBRANCH_LT (`<` between expressions)
+    "int i = 0; do { } while (!i);",                                  # F_BBRANCH_WHEN_ZERO
+    "int i; for (i = 0; i < 5; i++) i = 0;",                          # F_LOOP_INCR (+ the loop condition run inline)
+    "int i, j = 0; foreach (i in allocate (15000)) j++;",             # F_NEXT_FOREACH: 15000 iterations > any budget used
+]
+# a loop through each of these opcodes must have been stopped by the budget in some evaluation of the run
+SPIN_MIN_ITERATIONS = 100
+
+
 def lpc_of(root):
     """one LPC function per node; returns the source text"""
     out = [HEADER % root.term()]
@@ -428,8 +444,7 @@ def lpc_of(root):
             # sort_array of k + 1 elements makes at least k comparison callbacks (map/filter stop at the first failure)
             body.append('mixed %s () { sort_array (allocate (%d), "nosuch_function", this_object ()); return 0; }' % (name, node.n + 1))
         elif k == "S":
-            forms = ["while (1) ;", "for (;;) ;", "do { } while (1);", "int i = 0; while (i >= 0) { i = i & 1023; i++; }"]
-            body.append("mixed %s () { %s return 0; }" % (name, forms[node.form % len(forms)]))
+            body.append("mixed %s () { %s return 0; }" % (name, SPIN_FORMS[node.form % len(SPIN_FORMS)]))
         elif k == "R":
             form = node.form % 4
             if form == 0:      # direct
@@ -549,7 +564,13 @@ class C04(Prop):
     trusted = ["props/c04.py: shape term -> LPC source translator", "literal slack of 5 in reset_interpreter (src/stack.c) copied into the model"]
 
     def prepare(self, ctx):
-        self.exe = E.compile_harness("c04", [os.path.join(E.VERIF, "harness/c04/c04.c")])
+        if not getattr(self, "loop_info", None):      # (gen_extra did not get that far: the tie is already reported)
+            try:
+                self.loop_info = gen_loop(E.REPO)[1]
+            except Exception:
+                self.loop_info = {"backwardOps": []}
+        backops = "".join('{"%s",%s},' % (o, o) for o in self.loop_info.get("backwardOps", []))
+        self.exe = E.compile_harness("c04", [os.path.join(E.VERIF, "harness/c04/c04.c")], extra=["-DC04_BACKOPS=" + backops])
         self.conf = E.make_mudlib(ctx.rundir, master="/c04/master.c", extra_conf=BASE_CONF)
         self.idx = dict(getattr(ctx, "gen_vals", {}) or {})
         self.raw = {}
@@ -570,6 +591,25 @@ class C04(Prop):
         if unknown:
             problems.append({"kind": "tie-broken", "name": "efun-inventory:" + ",".join(unknown),
                              "detail": "efuns returning a sized value that are neither decided in NV/C04/Sizes.lean nor on the exclusion list of props/c04.py: %s" % unknown})
+        # every backward-branch opcode the translator found in eval_instruction must have been executed, in some
+        # evaluation of this run that the budget stopped, at least SPIN_MIN_ITERATIONS times: the generator's loop forms
+        # reach each of them (a new loop opcode needs a form here as well as a look at NV/C04/Loop.lean)
+        seen, hook = {}, False
+        for cid, lines in self.raw.items():
+            cost_err = any(l.startswith("r err es=2") or l.startswith("r err es=3") for l in lines)
+            for l in lines:
+                if l.startswith("#ops"):
+                    hook = True
+                    for t in l.split()[1:]:
+                        k, _, v = t.partition("=")
+                        if cost_err and v.isdigit():
+                            seen[k] = max(seen.get(k, 0), int(v))
+        self.loop_ops_seen = dict(sorted(seen.items()))
+        if hook:
+            missing = [o for o in self.loop_info.get("backwardOps", []) if seen.get(o, 0) < SPIN_MIN_ITERATIONS]
+            if missing:
+                problems.append({"kind": "tie-broken", "name": "loop-opcode-not-exercised:" + ",".join(missing),
+                                 "detail": "no evaluation of this run was stopped by the budget inside a loop through %s (SPIN_FORMS of props/c04.py needs a form for it)" % missing})
         return problems
 
     def run_impl(self, ctx, cases):
@@ -675,8 +715,10 @@ class C04(Prop):
         A = lambda x: N("A", kids=[x])
         R = lambda n, form=0: N("R", n, form=form)
         X = N("X")
-        for i in range(4):
+        for i in range(len(SPIN_FORMS)):
             B.append(self.mk("b-spin%d" % i, N("S", form=i)))
+            B.append(self.mk("b-c2-spin-form%d" % i, C(C(N("S", form=i))), cost=2000 + 500 * (i % 3)))
+        for i in range(4):
             B.append(self.mk("b-rec%d" % i, R(0, i)))
         # the repaired defect: nested catches around an exhausted budget / recursion depth
         B.append(self.mk("b-c1-spin", C(S)))
@@ -797,7 +839,7 @@ class C04(Prop):
             if k == "R":
                 return N("R", rng.choice([0, 0, 1, 4, 12, 20]), form=rng.below(4))
             if k == "S":
-                return N("S", form=rng.below(4))
+                return N("S", form=rng.below(len(SPIN_FORMS)))
             return N(k)
         # (sprintf inside master::object_name is refused by the driver: no safe apply inside a safe apply)
         k = rng.weighted([("C", 8), ("F", 4), ("Q", 6), ("B", 3), ("A", 0 if st.get("in_safe") else 1)])
@@ -1017,6 +1059,7 @@ class C04(Prop):
                 for o, f in zip(ops, flags):
                     mp[("absorb" if o[0] == "a" else "compose" if o[0] == "c" else "insert") + ("_err" if f == "e" else "_ok")] += 1
         h["mapseq_ops"] = mp
+        h["loop_opcodes_in_budget_stopped_runs"] = getattr(self, "loop_ops_seen", {})
         for c in cases:
             k = c.meta.get("kind")
             if k == "machine":
